@@ -50,11 +50,13 @@ TDIM = {"interval": 1, "triangle": 2, "tetrahedron": 3}
 P1, P2, P3 = ["P", 1], ["P", 2], ["P", 3]
 
 
-def mk(name, cell, gdim, elems, coef, args, *, coords=("x",), lits=(2,), pows=(2,), ops=ALL_OPS, depth=2, right=1, idx=(10, 11), poly=False, polymax=6, ascoded="holds"):
-    """ascoded: what TLC must find for the as-coded rule on this pool: 'holds' / 'fails'."""
+def mk(name, cell, gdim, elems, coef, args, *, coords=("x",), lits=(2,), pows=(2,), ops=ALL_OPS, depth=2, right=1, idx=(10, 11), poly=False, polymax=6, ascoded="holds", derivs=(), dirs=()):
+    """ascoded: what TLC must find for the as-coded rule on this pool: 'holds' / 'fails'.
+    derivs: tuples of coefficient numbers offered to derivative(form, tuple) (op "gderiv");
+    dirs: elements (vecP, gdim components) offered as direction space of a shape derivative (op "cderiv")."""
     if len({k for _, k in args}) != len(list(args)):
         raise MachineryError("one Argument per number (a form cannot combine two test functions)")
-    return dict(name=name, cell=cell, gdim=gdim, elems=elems, coef=list(coef), args=[list(a) for a in args], coords=list(coords), lits=list(lits), pows=list(pows), ops=list(ops), depth=depth, right=right, idx=list(idx), poly=poly, polymax=polymax, ascoded=ascoded)
+    return dict(name=name, cell=cell, gdim=gdim, elems=elems, coef=list(coef), args=[list(a) for a in args], coords=list(coords), lits=list(lits), pows=list(pows), ops=list(ops), depth=depth, right=right, idx=list(idx), poly=poly, polymax=polymax, ascoded=ascoded, derivs=[list(w) for w in derivs], dirs=list(dirs))
 
 
 def configs(tier):
@@ -163,6 +165,8 @@ c_Elems == <<{elems}>>
 c_CoefElems == {coef}
 c_ArgSlots == {args}
 c_Seeds == {seeds}
+c_DerivTuples == <<{derivs}>>
+c_DirSlots == {dirs}
 ====
 """
 CFG = """CONSTANTS
@@ -172,6 +176,8 @@ Elems <- c_Elems
 CoefElems <- c_CoefElems
 ArgSlots <- c_ArgSlots
 Seeds <- c_Seeds
+DerivTuples <- c_DerivTuples
+DirSlots <- c_DirSlots
 Coords = {coords}
 Lits = {lits}
 Pows = {pows}
@@ -209,7 +215,7 @@ class Job:
     def run(self):
         c = self.cfg
         given = self.seeds is not None
-        mc = MC.format(elems=", ".join(tla_elem(e) for e in c["elems"]), coef=_set(c["coef"]), args="{" + ", ".join(f"<<{a}, {b}>>" for a, b in c["args"]) + "}", seeds=SEEDS_FILE if given else SEEDS_ALL)
+        mc = MC.format(elems=", ".join(tla_elem(e) for e in c["elems"]), coef=_set(c["coef"]), args="{" + ", ".join(f"<<{a}, {b}>>" for a, b in c["args"]) + "}", seeds=SEEDS_FILE if given else SEEDS_ALL, derivs=", ".join("<<" + ", ".join(map(str, w)) + ">>" for w in c.get("derivs", ())), dirs=_set(c.get("dirs", ())))
         invs = list(self.invs)
         poly = c["poly"] and not given and self.dump
         if self.dump:
@@ -280,11 +286,18 @@ def walk(t):
         yield from walk(a)
 
 
+def walk_spec(specs):
+    for s in specs:
+        yield s
+        if s[0] in ("mixed", "sym"):
+            yield from walk_spec(s[1])
+
+
 def depth_of(t):
     if not t[3]:
         return 0
     d = max(depth_of(a) for a in t[3])
-    return d if t[0] == "isum" else d + 1
+    return d if t[0] in ("isum", "gderiv", "cderiv") else d + 1
 
 
 def has_coord(t):
@@ -317,6 +330,13 @@ def fmt(t, cfg=None):
         return f"sum_{ix(mi[0])} {fmt(a[0])}"
     if op == "list":
         return "[" + ", ".join(fmt(x) for x in a) + "]"
+    if op == "ident":
+        return "I"
+    if op == "gderiv":
+        W = cfg["derivs"][mi[0] - 1] if cfg else None
+        return f"derivative({fmt(a[0])}*dx, {'(' + ', '.join('f%d' % n for n in W) + ')' if W else 'tuple #%d' % mi[0]})"
+    if op == "cderiv":
+        return f"derivative({fmt(a[0])}*dx, x, V on element {mi[0]})"
     return f"{op}({', '.join(fmt(x) for x in a)})"
 
 
@@ -509,33 +529,62 @@ class Env:
             for k in range(nv):
                 p = p_add(p, p_scale(var[k], J[i][k]))
             self.xp.append(p)
-        primes = _primes()
-        cd = comp_degrees
-        self.tpoly, self.tdeg = {}, {}
+        self._primes = _primes()
+        self.tpoly, self.tref, self.tdeg = {}, {}, {}
         for obj, n in list(self.coef_of.items()) + [(a, k[0]) for a, k in self.arg_of.items()]:
-            spec = cfg["elems"][n - 1]
-            polys = self._phys(spec, primes)
-            degs = cd(spec, self.gdim)
-            shape = obj.ufl_shape
-            size = 1
-            for s in shape:
-                size *= s
-            if len(polys) != size or len(degs) != size or list(shape) != phys_shape(spec, self.gdim):
-                raise MachineryError(f"{cfg['name']}: element {spec} has physical shape {shape} on the real space but shape {phys_shape(spec, self.gdim)} / {len(degs)} components in the model")
-            if [p_deg(p) for p in polys] != degs:
-                raise MachineryError(f"{cfg['name']}: the member of {spec} is not generic: degrees {[p_deg(p) for p in polys]} expected {degs}")
-            self.tpoly[obj], self.tdeg[obj] = polys, degs
+            self._register(obj, cfg["elems"][n - 1])
+
+    def _register(self, obj, spec):
+        """A generic member of the space of the form argument `obj` (element description `spec`)."""
+        cfg = self.cfg
+        ref, polys = self._member(spec, self._primes)
+        degs = comp_degrees(spec, self.gdim)
+        shape = obj.ufl_shape
+        size = 1
+        for s in shape:
+            size *= s
+        if len(polys) != size or len(degs) != size or list(shape) != phys_shape(spec, self.gdim):
+            raise MachineryError(f"{cfg['name']}: element {spec} has physical shape {shape} on the real space but shape {phys_shape(spec, self.gdim)} / {len(degs)} components in the model")
+        if len(ref) != obj.ufl_element().reference_value_size:
+            raise MachineryError(f"{cfg['name']}: element {spec} has reference value size {obj.ufl_element().reference_value_size} on the real space but {len(ref)} in the model")
+        if [p_deg(p) for p in polys] != degs:
+            raise MachineryError(f"{cfg['name']}: the member of {spec} is not generic: degrees {[p_deg(p) for p in polys]} expected {degs}")
+        self.tpoly[obj], self.tref[obj], self.tdeg[obj] = polys, ref, degs
+
+    def derived_spec(self, k):
+        """(element number, element description) of the direction of derivative(form, tuple number k)."""
+        W = self.cfg["derivs"][k - 1]
+        if len(W) == 1:
+            return W[0], self.cfg["elems"][W[0] - 1]
+        return len(self.cfg["elems"]) + k, ["mixed", [self.cfg["elems"][n - 1] for n in W]]
+
+    def bind_argument(self, a, n, spec):
+        """An Argument created on the way (by derivative() or as the direction of a shape derivative)."""
+        k = self.arg_of.get(a)
+        if k is None:
+            self.arg_of[a] = (n, a.number())
+            self._register(a, spec)
+        elif k != (n, a.number()):
+            raise MachineryError(f"{self.cfg['name']}: Argument {a!r} is bound to {k}, now met as {(n, a.number())}")
+
+    def direction(self, n, number):
+        V = self.ufl.Argument(self.spaces[n - 1], number)
+        self.bind_argument(V, n, self.cfg["elems"][n - 1])
+        return V
 
     def _full(self, d, primes):
         return {m: next(primes) for m in _monomials(self.nv, d)}
 
-    def _phys(self, s, primes):
-        """Flat physical components of a member of the space: generic reference components pushed forward."""
+    def _member(self, s, primes):
+        """(flat reference components, flat physical components) of a member of the space: generic
+        reference components and their push forward."""
         k = s[0]
         if k == "P":
-            return [self._full(s[1], primes)]
+            r = [self._full(s[1], primes)]
+            return r, r
         if k == "vecP":
-            return [self._full(s[1], primes) for _ in range(s[2])]
+            r = [self._full(s[1], primes) for _ in range(s[2])]
+            return r, r
         if k in ("RT", "N1"):
             ref = [self._full(s[1], primes) for _ in range(self.tdim)]
             out = []
@@ -545,13 +594,14 @@ class Env:
                     # contravariant: J ref / detJ (the constant 1/detJ is dropped); covariant: K^T ref
                     p = p_add(p, p_scale(ref[a], self.J[i][a] if k == "RT" else self.K[a][i]))
                 out.append(p)
-            return out
+            return ref, out
         if k == "mixed":
-            return [p for x in s[1] for p in self._phys(x, primes)]
+            q = [self._member(x, primes) for x in s[1]]
+            return [p for r, _ in q for p in r], [p for _, f in q for p in f]
         if k == "sym":
             subs, _, smap = sym_parts(s)
-            q = [self._phys(x, primes) for x in subs]  # ONE member per sub-element, shared by its blocks
-            return [p for m in smap for p in q[m]]
+            q = [self._member(x, primes) for x in subs]  # ONE member per sub-element, shared by its blocks
+            return [p for r, _ in q for p in r], [p for m in smap for p in q[m][1]]
         raise MachineryError(f"element spec {s}")
 
     # ---- term -> real expression through the public API ----
@@ -614,7 +664,7 @@ class Env:
     def readback(self, e):
         from ufl.classes import Argument, CellCoordinate, Coefficient, ComponentTensor, Dot, FixedIndex, Grad, Indexed, IndexSum, Inner, IntValue, ListTensor, Outer, Power, Product, SpatialCoordinate, Sum, Transposed, Zero
 
-        from ufl.classes import Conj, Index, MultiIndex
+        from ufl.classes import Conj, CoordinateDerivative, Identity, Index, MultiIndex
         from ufl.corealg.traversal import unique_pre_traversal
 
         # indices made by the builder keep their names; indices made by ufl itself get unused names
@@ -651,7 +701,16 @@ class Env:
                 if e.ufl_free_indices:
                     raise Unsupported("Zero with free indices")
                 return ["zero", 0, list(e.ufl_shape), []]
+            if isinstance(e, Identity):
+                return ["ident", int(e.ufl_shape[0]), [], []]
             o = e.ufl_operands
+            if isinstance(e, CoordinateDerivative):
+                # d/dx integrand in the direction V: operands (integrand, ExprList(x), ExprList(V), ExprMapping())
+                w, v, cd = o[1].ufl_operands, o[2].ufl_operands, o[3].ufl_operands
+                if len(w) != 1 or not isinstance(w[0], SpatialCoordinate) or len(v) != 1 or not isinstance(v[0], Argument) or cd:
+                    raise Unsupported("CoordinateDerivative operands")
+                k = self.arg_of[v[0]]
+                return ["cderiv", 0, [k[0], k[1]], [rb(o[0])]]
             if isinstance(e, Sum):
                 return ["sum", 0, [], [rb(o[0]), rb(o[1])]]
             if isinstance(e, Product):
@@ -688,7 +747,7 @@ class Env:
         return r
 
     def _eval(self, e, comp, env):
-        from ufl.classes import Argument, CellCoordinate, Coefficient, ComponentTensor, Conj, Dot, FixedIndex, Grad, Identity, Imag, Indexed, IndexSum, Inner, IntValue, ListTensor, Outer, Power, Product, Real, SpatialCoordinate, Sum, Transposed, Variable, Zero
+        from ufl.classes import EQ, GE, GT, LE, LT, NE, Abs, Argument, CellCoordinate, Coefficient, ComponentTensor, Conditional, Conj, Division, Dot, FixedIndex, Grad, Identity, Imag, Indexed, IndexSum, Inner, IntValue, ListTensor, Outer, Power, Product, QuadratureWeight, Real, ReferenceGrad, ReferenceValue, ScalarValue, SpatialCoordinate, Sum, Transposed, Variable, Zero
 
         P = lambda x, c=(): self.poly(x, c, tuple(sorted(env.items())))  # noqa: E731
         nv = self.nv
@@ -707,7 +766,46 @@ class Env:
             return {}
         if isinstance(e, Identity):
             return {(0,) * nv: 1} if comp[0] == comp[1] else {}
+        if isinstance(e, ScalarValue):
+            # (a float literal made by the preprocessing, e.g. a reference cell volume)
+            q = Fraction(e.value()).limit_denominator(10**6)
+            if float(q) != float(e.value()):
+                raise Unsupported("float literal")
+            return {(0,) * nv: _num(q)} if q else {}
+        if isinstance(e, QuadratureWeight):
+            return {(0,) * nv: 1}  # a number per quadrature point: not a function of the coordinates
         o = e.ufl_operands
+        # --- the reference frame (integrands after pull back, integral scaling and geometry lowering)
+        if isinstance(e, ReferenceValue):
+            flat = 0
+            for c, s in zip(comp, e.ufl_shape):
+                flat = flat * s + c
+            return self.tref[o[0]][flat]
+        if isinstance(e, ReferenceGrad):
+            return p_diff(P(o[0], comp[:-1]), comp[-1])  # d / d X_k
+        if isinstance(e, (Division, Abs, Conditional)):
+            # geometry of an affine cell: the denominator / the argument / the condition are numbers
+
+            def number(x):
+                p = P(x)
+                if p_deg(p) > 0:
+                    raise Unsupported(f"{type(e).__name__} of a non-constant")
+                return Fraction(p.get((0,) * nv, 0))
+
+            if isinstance(e, Division):
+                d = number(o[1])
+                if not d:
+                    raise Unsupported("division by zero")
+                return {m: _num(Fraction(c) / d) for m, c in P(o[0]).items()}
+            if isinstance(e, Abs):
+                d = abs(number(o[0]))
+                return {(0,) * nv: _num(d)} if d else {}
+            cond = o[0]
+            a, b = (number(x) for x in cond.ufl_operands)
+            for cls, f in ((EQ, a == b), (NE, a != b), (LT, a < b), (LE, a <= b), (GT, a > b), (GE, a >= b)):
+                if isinstance(cond, cls):
+                    return P(o[1] if f else o[2], comp)
+            raise Unsupported(type(cond).__name__)
         if isinstance(e, Sum):
             return p_add(P(o[0], comp), P(o[1], comp))
         if isinstance(e, Product):
@@ -837,9 +935,82 @@ def culprit(e, expr):
     return "C18:underestimate:unlocated", "no single node underestimates on its own"
 
 
+ROOTS = ("gderiv", "cderiv")
+SHAPE_KW = dict(do_apply_function_pullbacks=True, do_apply_integral_scaling=True, do_apply_geometry_lowering=True)
+
+
+def derived_form(e, t):
+    """The real form of a form operation term: derivative(base*dx, ...) through the public API, and the
+    options compute_form_data needs for it."""
+    ufl = e.ufl
+    op, _, mi, a = t
+    form = e.build(a[0]) * ufl.dx(e.mesh)
+    if op == "gderiv":
+        W = e.cfg["derivs"][mi[0] - 1]
+        fs = tuple(e.coef[n] for n in W)
+        dform = ufl.derivative(form, fs if len(fs) > 1 else fs[0])
+        new = [x for x in dform.arguments() if x.number() == mi[1]]
+        if len(new) != 1:
+            raise MachineryError(f"derivative() made arguments {dform.arguments()}, expected one with number {mi[1]}")
+        e.bind_argument(new[0], *e.derived_spec(mi[0]))
+        return dform, {}
+    V = e.direction(mi[0], mi[1])
+    return ufl.derivative(form, e.x, V), SHAPE_KW
+
+
+def examine_root(e, line):
+    """A form operation: the estimate is the one compute_form_data attaches (made on the preprocessed
+    integrand: algebra lowered, Gateaux derivatives applied, a shape derivative still a
+    CoordinateDerivative node -- that DAG is read back for the binding); the truth is the exact degree
+    of the integrand compute_form_data finally delivers (for a shape derivative: in the reference frame,
+    after pull back, scaling, geometry lowering and apply_coordinate_derivatives)."""
+    from ufl.algorithms import compute_form_data
+    from ufl.algorithms.compute_form_data import preprocess_form
+
+    t = line[0]
+    try:
+        dform, kw = derived_form(e, t)
+    except ValueError as ex:
+        if "Cannot determine geometric dimension" in str(ex):
+            return {"skip": "grad of a domain-free expression after simplification"}
+        raise
+    pre = preprocess_form(dform, False).integrals()
+    fd = compute_form_data(dform, **kw)
+    final = [itg for itd in fd.integral_data for itg in itd.integrals]
+    if not pre or not final:
+        if pre or final:
+            raise MachineryError(f"{fmt(t)}: preprocess_form has {len(pre)} integrals, compute_form_data {len(final)}")
+        return {"skip": "the derivative vanishes identically", "vanished": True}
+    if len(pre) != 1 or len(final) != 1:
+        raise MachineryError(f"{fmt(t)}: {len(pre)} / {len(final)} integrals for one integrand")
+    seen, integrand = pre[0].integrand(), final[0].integrand()
+    r = {"real": final[0].metadata()["estimated_polynomial_degree"], "root": True}
+    r["seen"] = real_estimate(seen)  # must be the attached one
+    try:
+        r["rb"] = canon(e.readback(seen))
+    except Unsupported as ex:
+        r["rb"] = "unsupported:" + str(ex)
+    r["true"] = e.true_degree(integrand)
+    if t[0] == "gderiv":
+        # no pull back: what was estimated and what is delivered denote the same polynomial
+        r["true_seen"] = e.true_degree(seen)
+    if r["real"] < r["true"]:
+        from ufl.classes import CoordinateDerivative
+
+        r["fp"], r["why"] = culprit(e, seen.ufl_operands[0] if isinstance(seen, CoordinateDerivative) else seen)
+        if r["fp"].endswith(":unlocated") and isinstance(seen, CoordinateDerivative):
+            o = seen.ufl_operands
+            r["fp"] = "C18:underestimate:coordinate_derivative"
+            r["why"] = f"coordinate_derivative node: estimate {r['seen']} (operands: integrand {real_estimate(o[0])}, coordinates {real_estimate(o[1])}, direction {real_estimate(o[2])}) < degree {r['true']} of the shape derivative integrand on the reference cell"
+        r["why"] += f" [estimated integrand: {seen}]"
+    return r
+
+
 def examine(e, line, do_form):
     """Everything observed for one dump line [term, est as coded, est intended, TrueDeg, PolyDeg]."""
     t = line[0]
+    if t[0] in ROOTS:
+        return examine_root(e, line)
     try:
         expr = e.build(t)
     except ValueError as ex:
@@ -927,6 +1098,8 @@ class Verdict:
         self.skipped = 0
         self.form_unevaluated = 0
         self.form_degree_changed = 0
+        self.vanished = 0
+        self.roots = 0
 
 
 def judge(v, cfg, lines, obs, model_of_rb):
@@ -934,12 +1107,29 @@ def judge(v, cfg, lines, obs, model_of_rb):
     flat2 = cfg["gdim"] == 2 and cfg["cell"] == "triangle"
     for line, o in zip(lines, obs):
         t, m_ref, m_phys, td, pd = line
+        if o.get("vanished"):
+            # derivative(form, ...) is identically zero: nothing is integrated (TrueDeg = max(0, ZERO))
+            v.vanished += 1
+            if t[0] == "gderiv" and td != 0 and not has_coord(t):
+                v.cross.append((t, f"the Gateaux derivative vanishes on the real side but has TrueDeg {td} in the model"))
+            continue
         if "skip" in o:
             v.skipped += 1
             continue
         real, true = o["real"], o["true"]
         # --- the truth: TLC's compositional TrueDeg, TLC's polynomial arithmetic, the exact evaluation
         generic = not has_coord(t)
+        shape = t[0] == "cderiv"
+        if shape:
+            # the model's degree of a shape derivative is an upper bound; exact for generic data when no
+            # gradient of an expression of the coordinates is moved and the cell is not an interval
+            generic = cfg["gdim"] == TDIM[cfg["cell"]] >= 2 and not any(n[0] == "grad" and has_coord(n) for n in walk(t)) and not any(n[0] in ("RT", "N1") for n in walk_spec(cfg["elems"]))
+        if o.get("root"):
+            v.roots += 1
+            if o["seen"] != real:
+                v.drift.append((t, f"compute_form_data attached {real}, the estimate of the preprocessed integrand is {o['seen']}"))
+            if "true_seen" in o and o["true_seen"] != true:
+                v.cross.append((t, f"exact degree {o['true_seen']} of the estimated integrand vs {true} of the delivered one"))
         if true > td or (generic and true != td):
             v.cross.append((t, f"exact degree of the real expression {true} vs TrueDeg {td} of the model"))
         if pd != -2 and flat2 and generic and pd != true:
@@ -957,7 +1147,10 @@ def judge(v, cfg, lines, obs, model_of_rb):
                     m_ref = m_phys = None
                 else:
                     m_ref, m_phys = m[0], m[1]
-                    if m[2] != td:
+                    if shape:
+                        if true > m[2] or (generic and true != m[2]):
+                            v.cross.append((t, f"exact degree {true} of the real shape derivative integrand vs the model's bound {m[2]} on the read-back term"))
+                    elif m[2] != td:
                         v.cross.append((t, f"TrueDeg of the read-back term {m[2]} differs from TrueDeg {td} of the built term"))
         # --- binding
         if m_ref is not None:
